@@ -149,6 +149,10 @@ impl Engine for Layout {
                         if x.as_bytes_addr != base || x.as_bytes_len > n {
                             return Err(format!("as_bytes() = +{}..+{} not inside 0..{}", x.as_bytes_addr as isize - base as isize, x.as_bytes_len, n));
                         }
+                        // the library's own statement of the value's extent (`ptr_to_bytes`, behind `as_bytes`) is the compiler's
+                        if x.as_bytes_len != sv {
+                            return Err(format!("as_bytes().len() {} != size_of_val {}", x.as_bytes_len, sv));
+                        }
                         if x.self_addr != base {
                             return Err("value does not start at the slice start".into());
                         }
